@@ -118,9 +118,20 @@ func (a *AuthIp) parseAuthIp() error {
 		return nil
 	}
 
+	listed := make(map[string]struct{}, len(auth.IpList))
 	for _, ip := range auth.IpList {
+		listed[ip] = struct{}{}
 		if !IpMap.Insert(ip, struct{}{}) {
 			logging.Debugf("set ip %s", ip)
+		}
+	}
+	// addresses that are no longer in the file must not be admitted any more
+	for kv := range IpMap.Iter() {
+		if ip, ok := kv.Key.(string); ok {
+			if _, ok := listed[ip]; !ok {
+				IpMap.Del(kv.Key)
+				logging.Debugf("del ip %s", ip)
+			}
 		}
 	}
 	return nil
